@@ -327,6 +327,14 @@ def check(ctx):
     ctx.ob("NF-MIXTURE", "normkernel_j = D log(2 pi) + logdet(H_j)", ok, t[:200], ctx.site(cls.methods["_normkernels"]))
     biv = ctx._run(I, st, lambda: I.getattr_obj(o, "_bandwidth_inv", st))
     ctx.ob("NF-MIXTURE", "precision_j = inverse of bandwidth_j, paired by index", tq.has_op(biv.term, "inv") and tq.has_sym(biv.term, "bandwidth"), repr(biv.term)[:160], ctx.site(cls.methods["_bandwidth_inv"]))
+    # the fitted mixture (grid weights, grid points, bandwidths) is what every later score refers to: drawing samples
+    # or scoring leaves it as fit produced it
+    for p_ in protocols.all_class_protocols():
+        if not p_.name.startswith("SparseKDE"):
+            continue
+        Ip, sp_, op_, _res = protocols.run(ctx, p_)
+        for meth_, changed_ in getattr(Ip, "_reader_changes", []):
+            ctx.ob("R-STATE", f"{p_.name}.{meth_} leaves the fitted mixture untouched", not changed_, f"attributes rewritten: {changed_}" if changed_ else "no fitted attribute changed", ctx.site(P.method(cls, meth_)), p_.name)
 
 
 def _no_raise(term, node, interp):
